@@ -1038,6 +1038,13 @@ impl<'w> Gen<'w> {
         }
         self.query(&Query::BK { owner: RawAddr::Invalid, page: 1 });
         self.query(&Query::WL { owner: RawAddr::Invalid });
+        // strings that do not validate, among them the index's own "no whitelist" sentinel "1"
+        for odd in ["1", "", "ab", "ALICE"] {
+            self.query(&Query::WL { owner: RawAddr::Odd(odd.to_string()) });
+            self.query(&Query::BK { owner: RawAddr::Odd(odd.to_string()), page: 1 });
+            self.query(&Query::LO { owner: RawAddr::Odd(odd.to_string()), page: 1 });
+        }
+        self.registry_queries();
         let mut all: Vec<u64> = vec![];
         for p in 1..=3u8 {
             if let QResp::LS(ls) = self.query(&Query::MK { page: p }) {
@@ -1051,6 +1058,67 @@ impl<'w> Gen<'w> {
             let ids: Vec<String> = all.iter().map(|i| i.to_string()).collect();
             let l = format!("QUERY MKALL {} {}", ids.len(), ids.join(" "));
             let l = l.trim_end().to_string();
+            self.emit(&l);
+            self.stats.queries += 1;
+        }
+    }
+
+    /// single and batched lookups on the registry itself (the marketplace only ever sends a sorted,
+    /// de-duplicated batch): repeats, adjacent and apart, unregistered and non-contract names, request order
+    pub fn registry_queries(&mut self) {
+        use royalties::msg::QueryMsg as RQ;
+        use royalties::RoyaltyInfo;
+        let reg = self.h.sim.registry_addr().to_string();
+        let colls = self.h.sim.cw721_addrs().to_vec();
+        if colls.is_empty() {
+            return;
+        }
+        let mut names: Vec<RawAddr> = colls.iter().map(|c| RawAddr::valid(c.as_str())).collect();
+        names.push(RawAddr::valid("alice"));
+        names.push(RawAddr::Invalid);
+        let enc_opt = |sim: &Sim, r: &Option<RoyaltyInfo>| -> String {
+            match r {
+                None => "N".to_string(),
+                Some(i) => format!("S {}", crate::encode::encode_royinfo(sim, i)),
+            }
+        };
+        let enc_raw = |sim: &Sim, a: &RawAddr| -> String {
+            match a {
+                RawAddr::Valid(s) => format!("V {}", sim.addr_num(s)),
+                _ => "I".to_string(),
+            }
+        };
+        for a in names.iter() {
+            let r: Result<Option<RoyaltyInfo>, _> = self.h.sim.app.wrap().query_wasm_smart(reg.clone(), &RQ::RoyaltyInfoSingle { nft_contract: a.wire() });
+            let l = match r {
+                Ok(v) => format!("QUERY RS {} ok RI {}", enc_raw(&self.h.sim, a), enc_opt(&self.h.sim, &v)),
+                Err(_) => format!("QUERY RS {} err", enc_raw(&self.h.sim, a)),
+            };
+            self.emit(&l);
+            self.stats.queries += 1;
+        }
+        let n = names.len();
+        let mut batches: Vec<Vec<RawAddr>> = vec![
+            vec![],
+            vec![names[0].clone()],
+            vec![names[0].clone(), names[0].clone()],
+            vec![names[n - 3].clone(), names[0].clone(), names[0].clone(), names[n - 2].clone(), names[n - 2].clone(), names[n - 3].clone()],
+            names.iter().rev().cloned().collect(),
+        ];
+        let mut rnd: Vec<RawAddr> = vec![];
+        for _ in 0..(2 + self.rng.below(6)) {
+            rnd.push(self.rng.pick(&names).clone());
+        }
+        batches.push(rnd);
+        for b in batches {
+            let req: Vec<String> = b.iter().map(|a| a.wire()).collect();
+            let r: Result<Vec<Option<RoyaltyInfo>>, _> = self.h.sim.app.wrap().query_wasm_smart(reg.clone(), &RQ::RoyaltyInfoMulti { nft_contracts: req });
+            let head = format!("QUERY RM {} {}", b.len(), b.iter().map(|a| enc_raw(&self.h.sim, a)).collect::<Vec<_>>().join(" "));
+            let head = head.trim_end().to_string();
+            let l = match r {
+                Ok(v) => format!("{} ok RL {} {}", head, v.len(), v.iter().map(|x| enc_opt(&self.h.sim, x)).collect::<Vec<_>>().join(" ")).trim_end().to_string(),
+                Err(_) => format!("{} err", head),
+            };
             self.emit(&l);
             self.stats.queries += 1;
         }
